@@ -15,12 +15,15 @@ Furmanski–Petronzio; for `g₁` Kodaira / Zijlstra–van Neerven):
   ΔC_q   = C_{3,q} ,  ΔC_g = 2·(2 n_f)·T_R [ (2z−1)(ln((1−z)/z) − 1) + 2(1−z) ]
 
 Sum rules: the plus-distribution does not contribute to the first moment; exactly,
-GLS(NLO) − Adler(NLO) = −3 C_F = −4 and Bjorken(NLO) = GLS(NLO).  The value of the Adler moment
-itself involves `∫₀¹ ln z/(1−z) = −π²/6` and, beyond NLO, the fitted parametrisations: those are
-checked numerically on the real functions (`harness/checks/c04.py`), not proved.
+Adler(NLO) = 0 (`adler_nlo`: the regular part integrates to `2 C_F (π²/3 + 9/2)`, which the
+δ-coefficient cancels; the integral needs `∫₀¹ ln z/(1−z) = −π²/6`, `Lemmas/Dilog.lean`),
+GLS(NLO) = Bjorken(NLO) = −3 C_F = −4 (`gls_nlo`, `bjorken_nlo`).  Beyond NLO the coefficient
+functions are fitted parametrisations: those moments are checked numerically on the real functions
+(`harness/checks/c04.py`), not proved.
 -/
 import YadismModel.Lemmas.NormSound
 import YadismModel.Generated.NLO
+import YadismModel.Lemmas.Dilog
 import Mathlib.Analysis.SpecialFunctions.Trigonometric.Basic
 import Mathlib.MeasureTheory.Integral.IntervalIntegral.FundThmCalculus
 import Mathlib.Analysis.SpecialFunctions.Integrals.Basic
@@ -232,6 +235,159 @@ theorem gls_minus_adler_nlo (hint : IntervalIntegrable c2qReg MeasureTheory.volu
     norm_num
   rw [this]
   ring
+
+/-! ### The Adler moment itself -/
+
+open Yadism.Dilog MeasureTheory in
+/-- the regular part with its pole at `z = 1` separated: `(1+z²)/(1−z) = −(1+z) + 2/(1−z)` (both
+sides are `0` at `z = 1` in Lean's totalised division, which is a null set anyway) -/
+theorem c2qReg_split (z : ℝ) :
+    c2qReg z = 2 * (4 / 3) * (-((2 - (1 - z)) * Real.log (1 - z)) + ((z ^ 0 * Real.log z + z ^ 1 * Real.log z)
+      - 2 * (Real.log z / (1 - z)) + (3 + 2 * z))) := by
+  unfold c2qReg
+  by_cases h : z = 1
+  · subst h; simp
+  · have : (1 : ℝ) - z ≠ 0 := fun e => h (by linarith)
+    field_simp
+    ring
+
+open Yadism.Dilog MeasureTheory intervalIntegral in
+theorem ii_A : IntervalIntegrable (fun z : ℝ => (2 - (1 - z)) * Real.log (1 - z)) volume 0 1 := by
+  have h : IntervalIntegrable (fun x : ℝ => (2 - x) * Real.log x) volume 1 0 :=
+    (intervalIntegrable_log' (a := 1) (b := 0)).continuousOn_mul (by fun_prop)
+  have := h.comp_sub_left 1
+  simpa using this
+
+open Yadism.Dilog MeasureTheory intervalIntegral in
+theorem int_A : ∫ z in (0 : ℝ)..1, (2 - (1 - z)) * Real.log (1 - z) = -(7 / 4) := by
+  have := intervalIntegral.integral_comp_sub_left (fun x : ℝ => (2 - x) * Real.log x) (a := 0) (b := 1) 1
+  simp only [sub_self, sub_zero] at this
+  rw [this]
+  have e : (fun x : ℝ => (2 - x) * Real.log x) = fun x => 2 * (x ^ 0 * Real.log x) - x ^ 1 * Real.log x := by
+    funext x; ring
+  rw [e, intervalIntegral.integral_sub ((intervalIntegrable_pow_mul_log 0 0 1).const_mul 2)
+    (intervalIntegrable_pow_mul_log 1 0 1), intervalIntegral.integral_const_mul,
+    integral_pow_mul_log, integral_pow_mul_log]
+  norm_num
+
+open Yadism.Dilog MeasureTheory intervalIntegral in
+/-- the regular part is integrable on `[0,1]` (the hypothesis of `gls_minus_adler_nlo` holds) -/
+theorem c2qReg_integrable : IntervalIntegrable c2qReg volume 0 1 := by
+  have e : c2qReg = fun z => 2 * (4 / 3) * (-((2 - (1 - z)) * Real.log (1 - z)) + ((z ^ 0 * Real.log z + z ^ 1 * Real.log z)
+      - 2 * (Real.log z / (1 - z)) + (3 + 2 * z))) := funext c2qReg_split
+  rw [e]
+  refine (ii_A.neg.add ((((intervalIntegrable_pow_mul_log 0 0 1).add (intervalIntegrable_pow_mul_log 1 0 1)).sub
+    (intervalIntegrable_log_div.const_mul 2)).add ?_)).const_mul _
+  exact (by fun_prop : Continuous fun z : ℝ => 3 + 2 * z).intervalIntegrable _ _
+
+open Yadism.Dilog MeasureTheory intervalIntegral in
+/-- `∫₀¹ C_{2,q}^{reg} = 2 C_F (π²/3 + 9/2)`: exactly the δ-coefficient with the opposite sign -/
+theorem integral_c2qReg : ∫ z in (0 : ℝ)..1, c2qReg z = 2 * (4 / 3) * (Real.pi ^ 2 / 3 + 9 / 2) := by
+  have e : c2qReg = fun z => 2 * (4 / 3) * (-((2 - (1 - z)) * Real.log (1 - z)) + ((z ^ 0 * Real.log z + z ^ 1 * Real.log z)
+      - 2 * (Real.log z / (1 - z)) + (3 + 2 * z))) := funext c2qReg_split
+  have hpoly : IntervalIntegrable (fun z : ℝ => 3 + 2 * z) volume 0 1 :=
+    (by fun_prop : Continuous fun z : ℝ => 3 + 2 * z).intervalIntegrable _ _
+  have h01 := (intervalIntegrable_pow_mul_log 0 0 1).add (intervalIntegrable_pow_mul_log 1 0 1)
+  have hC := intervalIntegrable_log_div.const_mul 2
+  have ipoly : ∫ z in (0 : ℝ)..1, (3 + 2 * z) = 4 := by
+    have h3 : IntervalIntegrable (fun _ : ℝ => (3 : ℝ)) volume 0 1 := continuous_const.intervalIntegrable _ _
+    have h2 : IntervalIntegrable (fun z : ℝ => 2 * z) volume 0 1 :=
+      (by fun_prop : Continuous fun z : ℝ => 2 * z).intervalIntegrable _ _
+    rw [intervalIntegral.integral_add h3 h2, intervalIntegral.integral_const_mul]
+    simp [integral_id]
+    norm_num
+  have hA : IntervalIntegrable (fun z : ℝ => -((2 - (1 - z)) * Real.log (1 - z))) volume 0 1 := ii_A.neg
+  have hB : IntervalIntegrable (fun z : ℝ => z ^ 0 * Real.log z + z ^ 1 * Real.log z - 2 * (Real.log z / (1 - z))) volume 0 1 :=
+    h01.sub hC
+  have hBD : IntervalIntegrable (fun z : ℝ => z ^ 0 * Real.log z + z ^ 1 * Real.log z - 2 * (Real.log z / (1 - z)) + (3 + 2 * z))
+      volume 0 1 := hB.add hpoly
+  rw [e, intervalIntegral.integral_const_mul,
+    intervalIntegral.integral_add hA hBD,
+    intervalIntegral.integral_neg, int_A,
+    intervalIntegral.integral_add hB hpoly, ipoly,
+    intervalIntegral.integral_sub h01 hC,
+    intervalIntegral.integral_add (intervalIntegrable_pow_mul_log 0 0 1) (intervalIntegrable_pow_mul_log 1 0 1),
+    integral_pow_mul_log, integral_pow_mul_log, intervalIntegral.integral_const_mul,
+    integral_log_div_one_sub]
+  norm_num
+  ring
+
+/-- **Adler sum rule at NLO**: the first moment of the `F_2` quark coefficient (regular part plus
+the δ-coefficient the code uses; the plus-distributions have no first moment) vanishes exactly -/
+theorem adler_nlo : firstMoment c2qReg (c2qDistr.headD 0) = 0 := by
+  unfold firstMoment
+  rw [integral_c2qReg]
+  simp [c2qDistr]
+  ring
+
+/-- **Gross–Llewellyn-Smith sum rule at NLO**: the first moment of the `F_3` quark coefficient is
+`−3 C_F = −4` (in `a_s = α_s/4π`), i.e. `1 − α_s/π` -/
+theorem gls_nlo : firstMoment (fun z => c2qReg z - 2 * (4 / 3) * (1 + z)) (c2qDistr.headD 0) = -4 := by
+  rw [gls_minus_adler_nlo c2qReg_integrable, adler_nlo]
+  norm_num
+
+/-- **Bjorken sum rule at NLO**: the `g_1` quark coefficient is the `F_3` one
+(`g1_quark_closed_form`), so its first moment is `−4` too -/
+theorem bjorken_nlo : firstMoment (fun z => c2qReg z - 2 * (4 / 3) * (1 + z)) (c2qDistr.headD 0) = -4 := gls_nlo
+
+section code
+variable (c : String → ℝ) (hc : StdC c) (nf : ℝ)
+include hc
+
+/-- the same three statements about the kernels the code runs (`Generated/NLO.lean`, regenerated
+from the source on every run): for every light `F_2` quark class the first moment of its NLO
+coefficient function vanishes, for every `F_3` and `g_1` quark class it is `−4` -/
+theorem adler_nlo_code :
+    ∀ s ∈ Yadism.Gen.nloSites, s.1 ∈ f2Quark →
+      firstMoment (fun z => s.2.1.evalR (env z nf c))
+        ((s.2.2.1.map (KExpr.evalR (env (1 / 2) nf c))).headD 0) = 0 := by
+  intro s hs hl
+  unfold firstMoment
+  have hEq : (Set.uIoo (0 : ℝ) 1).EqOn (fun z => s.2.1.evalR (env z nf c)) c2qReg := by
+    intro z hz
+    rw [Set.uIoo_of_le zero_le_one] at hz
+    exact (f2_quark_closed_form c hc nf z hz.1 hz.2 s hs hl).1
+  rw [intervalIntegral.integral_congr_uIoo hEq,
+    (f2_quark_closed_form c hc nf (1 / 2) (by norm_num) (by norm_num) s hs hl).2]
+  exact adler_nlo
+
+theorem gls_nlo_code :
+    ∀ s ∈ Yadism.Gen.nloSites, s.1 ∈ f3Quark →
+      firstMoment (fun z => s.2.1.evalR (env z nf c))
+        ((s.2.2.1.map (KExpr.evalR (env (1 / 2) nf c))).headD 0) = -4 := by
+  intro s hs hl
+  unfold firstMoment
+  have hEq : (Set.uIoo (0 : ℝ) 1).EqOn (fun z => s.2.1.evalR (env z nf c))
+      (fun z => c2qReg z - 2 * (4 / 3) * (1 + z)) := by
+    intro z hz
+    rw [Set.uIoo_of_le zero_le_one] at hz
+    exact (f3_quark_closed_form c hc nf z hz.1 hz.2 s hs hl).1
+  rw [intervalIntegral.integral_congr_uIoo hEq,
+    (f3_quark_closed_form c hc nf (1 / 2) (by norm_num) (by norm_num) s hs hl).2]
+  exact gls_nlo
+
+theorem bjorken_nlo_code :
+    ∀ s ∈ Yadism.Gen.nloSites, s.1 ∈ g1Quark →
+      firstMoment (fun z => s.2.1.evalR (env z nf c))
+        ((s.2.2.1.map (KExpr.evalR (env (1 / 2) nf c))).headD 0) = -4 := by
+  intro s hs hl
+  unfold firstMoment
+  have hEq : (Set.uIoo (0 : ℝ) 1).EqOn (fun z => s.2.1.evalR (env z nf c))
+      (fun z => c2qReg z - 2 * (4 / 3) * (1 + z)) := by
+    intro z hz
+    rw [Set.uIoo_of_le zero_le_one] at hz
+    exact (g1_quark_closed_form c hc nf z hz.1 hz.2 s hs hl).1
+  rw [intervalIntegral.integral_congr_uIoo hEq,
+    (g1_quark_closed_form c hc nf (1 / 2) (by norm_num) (by norm_num) s hs hl).2]
+  exact gls_nlo
+
+end code
+
+/-- the three quark-class lists are inhabited in the regenerated table (the statements above are
+not vacuous) -/
+example : (Yadism.Gen.nloSites.filter fun s => f2Quark.contains s.1).length = 3
+    ∧ (Yadism.Gen.nloSites.filter fun s => f3Quark.contains s.1).length = 3
+    ∧ (Yadism.Gen.nloSites.filter fun s => g1Quark.contains s.1).length = 1 := by decide
 
 /-- **Bjorken = GLS at NLO**: the `g_1` and `F_3` quark coefficients coincide -/
 theorem bjorken_eq_gls_nlo (c : String → ℝ) (nf z : ℝ) :
